@@ -115,6 +115,34 @@ def _choose(fn, target):
     return cond.comparators[0], alts.elts[0].id, alts.elts[1].id
 
 
+def _xyz2rgb_literals(f) -> dict:
+    """C20 round 4: the literals of the encoder of `xyz2rgb` that are not shared with `rgb2xyz`:
+    `srgb_high = (1 + a)*np.power(rgb_linear, 1./2.4)` -> exponent numerator `1.` and denominator `2.4`;
+    `srgb_high -= a`; `srgb *= 255.` -> the output scale"""
+    hi = _py_assign(f, 'srgb_high')
+    if not (isinstance(hi, ast.BinOp) and isinstance(hi.op, ast.Mult) and isinstance(hi.right, ast.Call)
+            and getattr(hi.right.func, 'attr', '') == 'power' and len(hi.right.args) == 2
+            and isinstance(hi.left, ast.BinOp) and isinstance(hi.left.op, ast.Add)
+            and isinstance(hi.left.right, ast.Name) and hi.left.right.id == 'a'):
+        raise TranslationError('srgb_high = (1 + a)*np.power(rgb_linear, 1./gamma) expected')
+    ex = hi.right.args[1]
+    if not (isinstance(ex, ast.BinOp) and isinstance(ex.op, ast.Div)):
+        raise TranslationError('exponent 1./gamma expected in xyz2rgb')
+    out = dict(one_inv=_dec(hi.left.left), gamma_inv_num=_dec(ex.left), gamma_inv=_dec(ex.right))
+    aug = {}
+    for n in ast.walk(f):
+        if isinstance(n, ast.AugAssign) and isinstance(n.target, ast.Name):
+            aug[n.target.id] = n
+    sub = aug.get('srgb_high')
+    if not (sub is not None and isinstance(sub.op, ast.Sub) and isinstance(sub.value, ast.Name) and sub.value.id == 'a'):
+        raise TranslationError('srgb_high -= a expected')
+    mul = aug.get('srgb')
+    if not (mul is not None and isinstance(mul.op, ast.Mult)):
+        raise TranslationError('srgb *= 255. expected')
+    out['scale_inv'] = _dec(mul.value)
+    return out
+
+
 def extract_colors(repo: Path) -> dict:
     tree = ast.parse((repo / 'mahotas' / 'colors.py').read_text())
     out = {}
@@ -152,6 +180,7 @@ def extract_colors(repo: Path) -> dict:
     if not (isinstance(lo, ast.BinOp) and isinstance(lo.op, ast.Mult)):
         raise TranslationError('srgb_low = slope * rgb_linear expected')
     out['slope_inv'] = _dec(lo.left)
+    out.update(_xyz2rgb_literals(f))
     f = _func(tree, 'xyz2lab')
     g = _func(f, 'f')
     c, a0, a1 = _choose(g, None)
@@ -222,6 +251,10 @@ def lean_colors(c: dict) -> list[str]:
     s += sc('srgbSlope', c['slope'], 'divisor of the linear branch of `rgb2xyz`')
     s += sc('srgbSlopeInv', c['slope_inv'], 'factor of the linear branch of `xyz2rgb`')
     s += sc('srgbScale', c['scale'], '`rgb/255.`')
+    s += sc('srgbGammaInv', c['gamma_inv'], '`2.4` of the exponent `1./2.4` of the power branch of `xyz2rgb`')
+    s += sc('srgbGammaInvNum', c['gamma_inv_num'], 'numerator `1.` of that exponent')
+    s += sc('srgbOneInv', c['one_inv'], '`1` of `(1 + a)` in `xyz2rgb`')
+    s += sc('srgbScaleInv', c['scale_inv'], '`srgb *= 255.` in `xyz2rgb`')
     s += sc('srgbKnee', c['knee_fwd'], 'threshold of `np.choose` in `rgb2xyz`')
     s += sc('srgbKneeInv', c['knee_inv'], 'threshold of `np.choose` in `xyz2rgb`')
     s += sc('labDeltaNum', c['lab_delta_num'], 'numerator of `6./29` in `xyz2lab`')
